@@ -26,6 +26,7 @@ LongWord ErrorCount, WarnCount;            /* asmerr.c is not linked */
 LongWord in_w[8]; LargeWord in_l[16]; unsigned char in_b[32]; LongInt in_i[8];
 static LargeWord pcs_store[SegCountPlusStruct], phases_store[SegCountPlusStruct];
 static char cur[STRINGSIZE], defcpu[2] = "", pi1[STRINGSIZE], pi2[STRINGSIZE], pi3[STRINGSIZE];
+static TDefinement junk_def; static TInputTag junk_in; static TOutputTag junk_out; static TStructStack junk_struct;
 static TIfSave junk_if; static TSaveState junk_save; static TSaveSection junk_sect; static tSavePhase junk_phase;
 
 void harness(void)
@@ -44,6 +45,11 @@ void harness(void)
   PassNo = in_w[2]; MaxSymPass = in_w[3]; DoLst = (tLstMacroExp)(in_b[27] & 7);
   PageLength = in_b[26]; PageWidth = in_b[25]; ListOn = in_b[24];
   Repass = in_b[23] & 1;
+  StartAdrPresent = in_b[22] & 1; StartAdr = in_l[9]; AfterBSRAddr = in_l[10];
+  LstCounter = in_b[21]; ChapDepth = in_b[20] & 7; FirstDefine = (in_b[19] & 1) ? &junk_def : NULL;
+  FirstInputTag = (in_b[18] & 1) ? &junk_in : NULL; FirstOutputTag = (in_b[17] & 1) ? &junk_out : NULL;
+  StructStack = pInnermostNamedStruct = (in_b[16] & 2) ? &junk_struct : NULL;
+  pi1[0] = pi2[0] = pi3[0] = cur[0] = 'x'; pi1[1] = pi2[1] = pi3[1] = cur[1] = 0;
 
   /* ---- the per-file and per-pass initialisers, in the order AssembleFile() calls them ---- */
   AsmDefInit();
@@ -66,5 +72,12 @@ void harness(void)
   CHECK(ListOn == 1 && DoLst == eLstMacroExpAll, "listing state restarts");
   CHECK(PageLength == 60 && PageWidth == 0, "page geometry restarts");
   CHECK(FirstInputTag == NULL && FirstOutputTag == NULL, "no input/output processors inherited");
+  CHECK(!StartAdrPresent, "no entry address inherited from the previous file");
+  CHECK(AfterBSRAddr == 0, "BSR tracking cleared");
+  CHECK(pInnermostNamedStruct == NULL, "no structure definition inherited");
+  CHECK(LstCounter == 0 && ChapDepth == 0 && FirstDefine == NULL, "listing line counter, chapter depth and -D definitions list restart");
+  CHECK(PrtInitString[0] == 0 && PrtExitString[0] == 0 && PrtTitleString[0] == 0, "printer strings and title cleared");
+  CHECK(CurrFileName[0] == 'I', "current file name restarts as INTERNAL");
+  CHECK(!Repass, "no repass request inherited");
   WITNESS("end");
 }
